@@ -35,17 +35,17 @@ func C07() *runner.Property {
 		Cases: func(tier string, seed int64) []runner.Case {
 			var cs []runner.Case
 			r := rng.New(uint64(seed) ^ 0xC07)
-			n := map[string]int{"small": 600, "lens": 300, "many": 24, "big": 6, "longnames": 24, "hugeval": 8}
+			n := map[string]int{"small": 600, "lens": 300, "many": 24, "big": 6, "longnames": 24, "hugeval": 8, "compressible": 8}
 			re := 2
 			if tier == "thorough" {
-				n = map[string]int{"small": 20000, "lens": 8000, "many": 400, "big": 40, "longnames": 400, "hugeval": 40}
+				n = map[string]int{"small": 20000, "lens": 8000, "many": 400, "big": 40, "longnames": 400, "hugeval": 40, "compressible": 60}
 				re = 3
 			}
-			for _, cl := range []string{"small", "lens", "many", "big", "longnames", "hugeval"} {
+			for _, cl := range []string{"small", "lens", "many", "big", "longnames", "hugeval", "compressible"} {
 				for i := 0; i < n[cl]; i++ {
 					g := GenParams{Seed: r.U64(), Class: cl, Sized: i%2 == 0}
 					rr := re
-					if cl == "big" || cl == "many" || cl == "hugeval" {
+					if cl == "big" || cl == "many" || cl == "hugeval" || cl == "compressible" {
 						rr = 1
 					}
 					if cl == "hugeval" || cl == "big" {
